@@ -1,19 +1,26 @@
 (* C15 — classic serialization round-trips and is canonical.
    Only statements here; every proof is `exact <lemma>` from Proofs/Classic*.v.
 
-   [wf_sexp t] says every list element of every atom is a byte (< 256): the model's byte strings
+   [wf_sexp t] / [wf_bytes b] say every list element is a byte (< 256): the model's byte strings
    are lists of N. [ser t = Some e] says the tree is serializable at all (every atom < 2^34
    bytes, C15_ser_defined).
 
-   Full statement = C15_roundtrip /\ C15_canonical /\ C15_trusted_length /\ C15_untrusted_length
-   /\ C15_cache_length /\ C15_converse. Proved: the first three, the cache length, and
-   node_to_bytes = ser. NOT proved (so the property is claimed below proof level):
-     C15_converse : parse bs = Ok (t, rest) -> is_canonical_serialization consumed = BTrue ->
-                    ser t = Some consumed
-     C15_untrusted_length (serialized_length_from_bytes also steps over back-references and is
-                    not modelled in Model/Classic.v)
-   Both are decided on the implementation by the check's search ("agree" and "tree" families). *)
-From Clvm Require Import Model.Classic Proofs.ClassicProofs Proofs.ClassicWriter.
+   Full statement = C15_node_to_bytes (the limited writer produces [ser t]) /\ C15_roundtrip /\
+   C15_canonical /\ C15_trusted_length /\ C15_untrusted_length /\ C15_cache_length /\ C15_converse.
+   All conjuncts are proved, for every tree / every byte string:
+     C15_untrusted_length  serialized_length_from_bytes (src/serde/tools.rs:112, the shadow-tree
+                           probe that also validates back-references; modelled in Model/BackRef.v)
+                           returns the byte count of the serialization, whatever follows it;
+     C15_lengths_on_accepted  more generally both length functions return the consumed byte count
+                           on every input the classic decoder accepts;
+     C15_converse          any byte string that node_from_stream decodes and whose consumed prefix
+                           is_canonical_serialization accepts re-serializes to exactly that prefix
+                           (C15_consumed_prefix: what the decoder leaves is a suffix of its input;
+                           C15_converse_split is the same statement with the split given).
+   C15_cache_length holds below 2^32 - 5 bytes (u32 arithmetic of serialized_length_atom; beyond it
+   the function reports Overflow or wraps: outside "fits the size limit"). *)
+From Clvm Require Import Model.Classic Model.BackRef Proofs.ClassicProofs Proofs.ClassicWriter
+  Proofs.ClassicConverse Proofs.ClassicUntrusted.
 Open Scope N_scope.
 
 Theorem C15_ser_defined : forall t, atoms_small t = true <-> ser t <> None.
@@ -47,12 +54,50 @@ Theorem C15_cache_length : forall t e, ser t = Some e -> blen e < 4294967291 ->
   cache_serialized_length t = Ok (blen e).
 Proof. exact cache_serialized_length_spec. Qed.
 
+(* the untrusted length probe (back-reference aware) on a classic serialization *)
+Theorem C15_untrusted_length : forall t e rest, wf_sexp t = true -> ser t = Some e ->
+  serialized_length_from_bytes (e ++ rest) = Ok (blen e).
+Proof. exact untrusted_length_ser. Qed.
+
+Theorem C15_lengths_on_accepted : forall bs t rest, node_from_stream bs = Ok (t, rest) ->
+  serialized_length_from_bytes bs = Ok (blen bs - blen rest) /\
+  serialized_length_trusted bs = Ok (blen bs - blen rest).
+Proof. exact lengths_agree_on_accepted. Qed.
+
+(* converse: decoded + judged canonical => the consumed bytes are the serialization of the tree *)
+Theorem C15_consumed_prefix : forall bs t rest, node_from_stream bs = Ok (t, rest) ->
+  bs = firstn (length bs - length rest) bs ++ rest.
+Proof. exact node_from_stream_suffix. Qed.
+
+Theorem C15_converse : forall bs t rest, wf_bytes bs = true -> node_from_stream bs = Ok (t, rest) ->
+  is_canonical_serialization (firstn (length bs - length rest) bs) = BTrue ->
+  ser t = Some (firstn (length bs - length rest) bs).
+Proof. exact canonical_converse_consumed. Qed.
+
+Theorem C15_converse_split : forall e rest t, wf_bytes e = true ->
+  node_from_stream (e ++ rest) = Ok (t, rest) -> is_canonical_serialization e = BTrue ->
+  ser t = Some e.
+Proof. exact canonical_converse. Qed.
+
 (* non-vacuity: atoms on both sides of the 1-byte/2-byte prefix boundary *)
 Example C15_witness :
   let t := Cons (Atom (repeat 7 63)) (Cons (Atom (repeat 0x80 64)) (Atom [])) in
   wf_sexp t = true /\ (exists e, ser t = Some e /\ blen e = 133 /\ is_canonical_serialization e = BTrue
-     /\ node_from_stream (e ++ [9]) = Ok (t, [9])).
+     /\ node_from_stream (e ++ [9]) = Ok (t, [9]) /\ serialized_length_from_bytes (e ++ [9]) = Ok 133).
 Proof. split; [vm_compute; reflexivity|]. eexists. split; [vm_compute; reflexivity|]. vm_compute. repeat split. Qed.
+
+(* the converse's hypotheses are met by a non-trivial input (trailing byte left over), and the
+   canonical hypothesis is not redundant: a zero-padded two-byte prefix decodes to the same atom
+   but is not canonical and is not what the serializer writes *)
+Example C15_converse_witness :
+  let bs := [0xff; 0x83; 1; 2; 3; 0xff; 0x80; 0x05; 0x77] in
+  let t := Cons (Atom [1; 2; 3]) (Cons (Atom []) (Atom [5])) in
+  wf_bytes bs = true /\ node_from_stream bs = Ok (t, [0x77]) /\
+  is_canonical_serialization (firstn (length bs - 1) bs) = BTrue /\
+  node_from_stream [0xc0; 0x03; 1; 2; 3] = Ok (Atom [1; 2; 3], []) /\
+  is_canonical_serialization [0xc0; 0x03; 1; 2; 3] = BFalse /\
+  ser (Atom [1; 2; 3]) = Some [0x83; 1; 2; 3].
+Proof. vm_compute. repeat split. Qed.
 
 Print Assumptions C15_ser_defined.
 Print Assumptions C15_node_to_bytes.
@@ -61,4 +106,10 @@ Print Assumptions C15_roundtrip_grammar.
 Print Assumptions C15_canonical.
 Print Assumptions C15_trusted_length.
 Print Assumptions C15_cache_length.
+Print Assumptions C15_untrusted_length.
+Print Assumptions C15_lengths_on_accepted.
+Print Assumptions C15_consumed_prefix.
+Print Assumptions C15_converse.
+Print Assumptions C15_converse_split.
 Print Assumptions C15_witness.
+Print Assumptions C15_converse_witness.
